@@ -138,6 +138,7 @@ def gen_model(rng):
                     break
             vs = rng.sample(allobjs, min(len(allobjs), rng.randint(0, 3)))
             trap = add({'kind': 'trap', 'name': namer.lower(pfx), 'enterprise': ent, 'number': num, 'oid': t,
+                        'braces': rng.random() < 0.3,
                         'vars': vs, 'descr': ' '.join(rng.sample(WORDS, 2)) if rng.random() < 0.7 else None})
             m['has_trap'] = True
             if rng.random() < 0.4:
@@ -235,7 +236,8 @@ def render(mods, v):
                         need(c['module'], c['name'])
                 if v == 1:
                     need('RFC-1215', 'TRAP-TYPE')
-                    t = '%s TRAP-TYPE ENTERPRISE %s' % (d['name'], par['name'])
+                    # the dialect of the tools tolerates braces around the enterprise
+                    t = '%s TRAP-TYPE ENTERPRISE %s' % (d['name'], '{ %s }' % par['name'] if d.get('braces') else par['name'])
                     if d['vars']:
                         t += ' VARIABLES { %s }' % ', '.join(c['name'] for c in d['vars'])
                     if d['descr'] is not None:
@@ -483,8 +485,9 @@ def case_sweep(idx, rng, tier, res):
     for v1mod, sym in chunk:
         # half of the time the statement also names a symbol of that module which has no SMIv2 home:
         # it has to stay where it is while its neighbour moves
-        keep = rng.choice([None, 'first', 'last']) if sym != 'notABaseSymbol' else None
-        syms = {None: sym, 'first': 'stayHere, ' + sym, 'last': sym + ', stayHere'}[keep]
+        keep = rng.choice([None, 'first', 'last', 'twice']) if sym != 'notABaseSymbol' else None
+        syms = {None: sym, 'first': 'stayHere, ' + sym, 'last': sym + ', stayHere',
+                'twice': '%s, stayHere, %s' % (sym, sym)}[keep]       # a symbol may be listed twice
         text = 'SW-MIB DEFINITIONS ::= BEGIN IMPORTS %s FROM %s; END' % (syms, v1mod)
         res.count('import_pairs_swept')
         want = home_of(v1mod, sym)
